@@ -761,6 +761,7 @@ func (p *Prog) VerifyFunc(fn *ssa.Function) *FuncVC {
 	for _, d := range ct.Decr {
 		c.fnDecr0 = append(c.fnDecr0, c.define("fdecr0", "Int", e.tr(d).t))
 	}
+	c.ghostFrameCheck(ct, fn.String())
 	// frame condition
 	c.setupAssigns(ct, e)
 	for _, ln := range ct.Uses {
